@@ -66,7 +66,7 @@ class API:
             'rx_get_frequency_error': ('any', []),
             'dump_registers': ('any', []),
             'tx_set_pa_config': ('any', [E('sx127x_pa_pin_t'), ('int', -6, 22)]),
-            'tx_set_ocp': ('any', [('bool',), ('u8',)]),
+            'tx_set_ocp': ('any', [('bool',), ('ocp',)]),
             'lora_tx_set_for_transmission': ('lora', [('bytes', 0, 255)]),
             'lora_set_ppm_offset': ('lora', [('int', -400000, 400000)]),
             'fsk_ook_tx_set_for_transmission': ('fskook', [('bytes', 0, 2100)]),
@@ -117,6 +117,9 @@ class API:
             return [str(r.randint(0, 1))]
         if k == 'u8':
             return [str(r.choice([0, 1, 0x7f, 0x80, 0xff, r.randint(0, 255)]))]
+        if k == 'ocp':
+            # the documented range 45..240 mA with its two formulas (<=120, >120) and their edges
+            return [str(r.choice([0, 44, 45, 46, 50, 119, 120, 121, 125, 130, 239, 240, 241, 255, r.randint(0, 255), r.randint(45, 240)]))]
         if k == 'u16':
             return [str(r.choice([0, 1, 8, 0xff, 0x100, 0xffff, r.randint(0, 65535)]))]
         if k == 'int':
@@ -350,6 +353,8 @@ class Scripts:
                 lists.append([['0'], ['1']])
             elif k == 'u8':
                 lists.append([[str(v)] for v in (0, 1, 0x2c, 0x2d, 0x78, 0x79, 0x80, 0xf0, 0xf1, 0xff)])
+            elif k == 'ocp':
+                lists.append([[str(v)] for v in (0, 44, 45, 46, 120, 121, 125, 240, 241, 255)])
             elif k == 'u16':
                 lists.append([[str(v)] for v in (0, 1, 0xff, 0x100, 0x1234, 0xffff)])
             elif k == 'int':
@@ -851,6 +856,34 @@ class Scripts:
                 self.emit('set_opmod 7 0x80')
                 self.emit('env loraflags %d' % r.choice([0x04, 0x05]))
                 self.emit('irq')
+
+    def stale_length(self, n, cap):
+        """C08 (small packet buffers): a transmit refill with a length in the handle that does not
+        belong to the frame in the buffer — left behind by a LoRa implicit-header configuration made
+        while the FSK/OOK frame was still in the FIFO.  The refill must not read the frame beyond
+        `packet[cap]`; no delivery monitor applies (the history is not a sensible transmission)."""
+        r = self.rnd
+        for _ in range(n):
+            mod = r.choice([FSK, OOK])
+            self.begin('stalelen', 'mod=%x' % mod)
+            self.prologue(mod, rand_chip=False)
+            self.emit('fsk_ook_set_packet_format 0x80 255')
+            self.emit('set_opmod 1 %d' % mod)
+            self.emit('write_register 0x3f 0x10')
+            plen = max(1, min(cap - 1, r.choice([cap - 1, cap - 2, cap // 2 + 8, r.randint(1, max(1, cap - 1))])))
+            self.emit('fsk_ook_tx_set_for_transmission %s' % self.api.bytes_hex(min(plen, 255)))
+            self.emit('set_opmod 3 %d' % mod)
+            for _ in range(r.randint(0, 50)):
+                self.emit('env txshift')
+            self.emit('set_opmod 1 0x80')
+            self.emit('lora_set_implicit_header %d 1 1' % r.choice([255, 200, cap + 1, cap + 30, r.randint(min(cap + 1, 255), 255)]))
+            self.emit('set_opmod 1 %d' % mod)
+            self.emit('set_opmod 3 %d' % mod)
+            for _ in range(r.randint(1, 4)):
+                for _ in range(r.randint(0, 20)):
+                    self.emit('env txshift')
+                self.emit('irq')
+            self.emit('dump')
 
     def fsk_tx(self, n, maxlen_fixed=2047):
         """C04: frames of every length; the simulated modulator consumes bytes between and
